@@ -90,6 +90,8 @@ class RepoEnum:
         return iter(self.members.values())
 
     def __call__(self, value):
+        if isinstance(value, EnumMember) and value.cls_name == self.name and value.name in self.members:
+            return self.members[value.name]   # Enum(member) is the member
         for m in self.members.values():
             if m.value == value:
                 return m
@@ -418,7 +420,7 @@ class Interp:
             self._bind(fn.mod, node.args, args, kwargs, env, fn.closure)
             if isinstance(node, ast.Lambda):
                 return self.eval(fn.mod, node.body, env)
-            if f'{fn.mod.name}.{fn.__name__}' in self.eager_generators:
+            if f'{fn.mod.name}.{fn.__name__}' in self.eager_generators or self._is_generator(node):
                 # vetted generator run to completion: the caller receives every yielded object
                 # afterwards, so a buffer shared between yields shows its final contents only
                 env.vars['__yielded__'] = out = []
@@ -434,6 +436,32 @@ class Interp:
             return None
         finally:
             self.depth -= 1
+
+    _gen_cache: dict = {}
+    _with_values: dict = {}
+
+    def _peek_host(self, mod, expr, env):
+        v = self.eval(mod, expr, env)
+        self._with_values[id(expr)] = v
+        return v
+
+
+    def _is_generator(self, node) -> bool:
+        """Generator functions are run to completion and their yields handed over afterwards (the consumer of a folded
+        fragment does not interleave side effects with the producer; the one place where that matters -- a yielded buffer
+        that is re-used -- is C12.ITER's subject)."""
+        k = id(node)
+        if k not in self._gen_cache:
+            found = False
+            stack = list(getattr(node, 'body', []))
+            while stack and not found:
+                n = stack.pop()
+                if isinstance(n, (ast.Yield, ast.YieldFrom)):
+                    found = True
+                elif not isinstance(n, (ast.FunctionDef, ast.AsyncFunctionDef, ast.Lambda, ast.ClassDef)):
+                    stack.extend(ast.iter_child_nodes(n))
+            self._gen_cache[k] = found
+        return self._gen_cache[k]
 
     def _bind(self, mod, a: ast.arguments, args, kwargs, env, defenv):
         args = list(args)
@@ -566,6 +594,21 @@ class Interp:
                 self.exec_block(mod, st.finalbody, env)
         elif isinstance(st, (ast.Import, ast.ImportFrom)):
             pass  # resolved lazily through the module import table
+        elif isinstance(st, ast.With) and all(isinstance(self._peek_host(mod, it.context_expr, env), Host) for it in st.items):
+            # `with <host object> as x:` -- the context manager is a stand-in supplied by the rule (e.g. a model SAT solver)
+            mgrs = []
+            for it_ in st.items:
+                m_ = self._with_values.pop(id(it_.context_expr))
+                v = m_.__enter__() if hasattr(m_, '__enter__') else m_
+                mgrs.append(m_)
+                if it_.optional_vars is not None:
+                    self.assign(mod, it_.optional_vars, v, env)
+            try:
+                self.exec_block(mod, st.body, env)
+            finally:
+                for m_ in reversed(mgrs):
+                    if hasattr(m_, '__exit__'):
+                        m_.__exit__(None, None, None)
         elif isinstance(st, ast.While) and (self.allow_while or self._is_padding_loop(st)):
             # the padding idiom `while len(xs) < len(ys): xs.append(c)` is always interpreted; general worklist loops only when
             # the caller opted in (folds over finite model structures), and always under the step budget
